@@ -5,6 +5,7 @@ Import ListNotations.
 Require Import Naga.IR.Syntax Naga.IR.Values Naga.IR.Sem.
 Require Import Naga.Passes.Remap Naga.Passes.RemapProofs Naga.Passes.Compact Naga.Passes.RenameSound.
 Local Open Scope nat_scope.
+Local Open Scope list_scope.
 
 (* ====================================================================== *)
 (* Induction over statements (nested lists)                                *)
@@ -127,7 +128,7 @@ Definition refs_below (es : list expr) : Prop :=
 Lemma fwd_free_refs_below es : fwd_free es -> refs_below es.
 Proof.
   intros H h x Hx. destruct (nth_error es h) as [e|] eqn:E.
-  - rewrite (nth_error_nth _ _ _ E) in Hx. eapply H; eauto using compact_refs_incl.
+  - rewrite (nth_error_nth _ _ _ E) in Hx. apply (H h e x E). apply compact_refs_incl. exact Hx.
   - apply nth_error_None in E. rewrite nth_overflow in Hx by exact E. cbn in Hx. contradiction.
 Qed.
 
@@ -187,7 +188,7 @@ Proof.
   unfold used_exprs in *. apply propagate_closed with (j := h); auto.
   - rewrite (nth_error_nth _ _ _ He). exact Hx.
   - rewrite marks_length, repeat_length.
-    assert (x < h) by (eapply Hf; eauto using compact_refs_incl). lia.
+    assert (x < h) by (apply (Hf h e x He); apply compact_refs_incl; exact Hx). lia.
 Qed.
 
 (* ====================================================================== *)
@@ -430,7 +431,7 @@ Lemma frel_compact_function f :
 Proof.
   intro Hwf. unfold compact_function. destruct (f_exprs f) eqn:E.
   - exists utrue. apply fspec_id. exact Hwf.
-  - rewrite <- E. destruct (all_true (used_exprs f)).
+  - destruct (all_true (used_exprs f)).
     + exists utrue. apply fspec_id. exact Hwf.
     + exists (uget (used_exprs f)). apply fspec_compact. exact Hwf.
 Qed.
